@@ -208,6 +208,16 @@ func c17ShapedFiles(shape string) (string, string) {
 		}
 	}
 	switch {
+	case shape == "today-last":
+		day(3, 4)
+		day(5, 4)
+		day(9, 4) // vToday
+	case shape == "today-first":
+		day(9, 4)
+		day(3, 4)
+	case shape == "period-none":
+		day(3, 4)
+		day(5, 4)
 	case shape == "epoch-last":
 		day(3, 4)
 		day(5, 4)
@@ -276,6 +286,10 @@ func checkC17CLI(c c17CLICase, ctx *vCtx) *vFailure {
 		args[i] = strings.ReplaceAll(strings.ReplaceAll(a, "@LOG@", lp), "@BOOK@", bp)
 	}
 	inv := vInvocation{Args: append([]string{"--today", vToday, "-d", bp, "-l", lp}, args...)}
+	if c.Shape == "period-none" {
+		// a period that holds no record: whatever the command still prints (a footer, a header, counts) must get through
+		inv.Args = append([]string{"-b", "2031/01/01"}, inv.Args...)
+	}
 	// control: the report is not empty
 	r := vRunApp(inv)
 	ctx.Run(1)
@@ -489,7 +503,7 @@ func c17CLISpace() []c17CLICase {
 			}
 		}
 		out = append(out, c17CLICase{Cmd: ci, Sink: "regular-file-size-limit", Big: true})
-		for _, shape := range []string{"epoch-last", "zero-first", "rows:255", "rows:256", "rows:257", "rows:65535", "rows:65536", "rows:65537"} {
+		for _, shape := range []string{"today-last", "today-first", "period-none", "epoch-last", "zero-first", "rows:255", "rows:256", "rows:257", "rows:65535", "rows:65536", "rows:65537"} {
 			if strings.HasPrefix(shape, "rows:6") && !vThorough() && shape != "rows:65536" {
 				continue // quick: the exact power of two only
 			}
